@@ -295,7 +295,10 @@ type step struct {
 	jsxMode bool
 }
 
-type clock struct{ ns int64 }
+type clock struct {
+	ns   int64
+	last map[string]int64 // last mtime offset given to each path
+}
 
 func (c *clock) tick(r *Rng) int64 {
 	switch r.Intn(5) {
@@ -356,10 +359,22 @@ func diffTrees(old, new *tree, r *Rng, ck *clock) []op {
 		oc, inOldF := old.files[p]
 		if inNewF && (!inOldF || nc != oc) {
 			o := op{Kind: "write", Path: p, Content: nc}
-			if r.Chance(12) {
+			prev, hasPrev := ck.last[p]
+			switch {
+			case r.Chance(12):
 				o.Fresh = true
-			} else {
+				delete(ck.last, p)
+			case inOldF && hasPrev && r.Chance(40):
+				// the file's own mtime advances by less than a second (often by
+				// nanoseconds only): size, inode and seconds may all stay the same
+				o.MtimeNs = prev + int64(1+r.Intn(999))*int64([]int{1, 1000, 1000 * 1000}[r.Intn(3)])
+				if o.MtimeNs > ck.ns {
+					ck.ns = o.MtimeNs
+				}
+				ck.last[p] = o.MtimeNs
+			default:
 				o.MtimeNs = ck.tick(r)
+				ck.last[p] = o.MtimeNs
 			}
 			o.Replace = inOldF && r.Chance(20)
 			ops = append(ops, o)
@@ -536,7 +551,7 @@ func genHistory(r *Rng, nsteps int) (*history, *project) {
 		cfg.Entries = append(cfg.Entries, p.mods[1].rel())
 	}
 	h.Cfg = cfg
-	ck := &clock{}
+	ck := &clock{last: map[string]int64{}}
 	cur := newTree()
 	emit := func(desc string, extraOps []op, jsxMode bool) {
 		nt := p.render()
